@@ -5606,6 +5606,11 @@ class LinProg:
             string += '{}\n'.format(self.const[i])
 
         ub, lb = self.ub, self.lb
+        is_bin = (np.array(self.vtype) == 'B')
+        if is_bin.any():
+            # binaries are solved within [0, 1] intersected with their bounds
+            lb = np.where(is_bin, np.maximum(lb, 0), lb)
+            ub = np.where(is_bin, np.minimum(ub, 1), ub)
         nvar = len(ub)
         string += 'Bounds\n'
         for i in range(nvar):
